@@ -5,9 +5,9 @@ from vlib.engine import Disc, Outcome
 
 PID = 'C18'
 RULE = ('Hypothesis histories of three shapes: (1) one data block - sequential (start 0..65535, length 1..64) or sparse '
-        '(any key set, built from a dict or from a list) - with 1..14 operations validate/get/set/reset whose addresses and '
+        '(any key set in any insertion order, built from a dict or from a list; one-value form; count left to its default; scalar writes) - with 1..14 operations validate/get/set/reset whose addresses and '
         'counts are drawn around every boundary (start-2..end+2, 0, 65535, counts 1..len+3); (2) a slave context over four '
-        'such blocks with zero-mode on/off and operations through every function code; (3) a server context (single or '
+        'such blocks (tables left out get the documented full-range default block) with zero-mode on/off, operations through every function code and context-level reset; (3) a server context (single or '
         'multi) with set/get/del/contains/slaves over ids -1..300. Oracle: dict model - validate(a,c) for c>=1 <=> all c '
         'cells populated; accepted read = exactly c values in address order; accepted write changes exactly those cells, '
         'key set unchanged, visible to later reads; reset = default value on the same extent; +1 offset unless zero-mode; '
